@@ -1027,4 +1027,7 @@ THEOREMS = THEOREMS + [P + t for t in [
 LEAN_TARGETS = LEAN_TARGETS + ["OdxVerif.Props.C04Nested3"]
 THEOREMS = THEOREMS + [P + t for t in [
     "C04_nested3_partial", "C04_nested3_accepts_iff", "DescribedP3.okW", "PDesc.ofConv_okW", "DtcShape.spec_ok", "DtcShape.pdesc_okW",
-    "encodeDct_obj_bad", "encodeParam_value_missing", "C04_dtc_duplicate_code_counterexample", "cDesc_described"]]
+    "encodeDct_obj_bad", "encodeParam_value_missing", "C04_dtc_duplicate_code_counterexample", "cDesc_described",
+    # LINEAR / TEXTTABLE DOPs: the model's conversion layer is state-free and fails only with library errors / unmodelled
+    "dopP2I_plain", "dopI2P_plain", "CompuShape.spec_ok", "CompuShape.pdesc_okW", "CompuShape.ok_of_ttCheck", "CompuShape.ok_of_linCheck",
+    "p2i_textTable_mem", "tMode_ok", "tTemp_ok", "tDesc_described"]]
